@@ -920,6 +920,25 @@ func genMultiWith(rt *rapid.T, gen kit.GenOpts, withClose bool) *mcase {
 	if x.Build.Err != nil || x.Build.Panic != nil {
 		return c
 	}
+	if withClose && rapid.IntRange(0, 2).Draw(rt, "selfClosing") == 0 {
+		// the Close methods of some registrations close the scope their instance lives in (a unit of
+		// work that ends its own scope): whenever such an instance is closed - by the disposal loop, or
+		// on arrival because it was constructed while the scope was closing - that call returns
+		selfClosing := map[int]bool{}
+		for _, r := range x.W.Cfg.Regs {
+			if r.Form != kit.FormInstance && r.Life != kit.Singleton && rapid.IntRange(0, 1).Draw(rt, "closesItsScope") == 0 {
+				selfClosing[r.ID] = true
+			}
+		}
+		x.W.InClose = func(e *kit.Entry) {
+			if !selfClosing[e.Reg] || e.Inv == nil || e.ScopeTag <= 0 {
+				return
+			}
+			if rec := x.R.ScopeRecOf(e.ScopeTag); rec != nil && rec.S != nil {
+				_ = rec.S.Close()
+			}
+		}
+	}
 	for i := rapid.IntRange(1, 3).Draw(rt, "nscopes"); i > 0; i-- {
 		x.exec(Op{Kind: "create", Scope: rapid.SampledFrom(x.R.LiveScopes()).Draw(rt, "parent"), Ctx: rapid.SampledFrom([]int{0, 1}).Draw(rt, "ctx")})
 	}
